@@ -105,10 +105,11 @@ CLAIMS = {
          'mechanical numpy->Lean extraction + Lean 4/Mathlib proofs of the definitional identities; bounded triple-enumeration oracle for loop-based routines', '5/C09'),
  'C10': ('exploration',
          'Partly deductive: Lean proofs over the extracted real source (all n) of 11 reductions: strengths = degrees on 0/1 input (und, dir), in = out = degree on symmetric input, '
-         'clustering_coef_wd = _bd and transitivity_wd = _bd on 0/1 input, _wd = _wu on symmetric input, transitivity_wu = _bu and _bd = _bu on symmetric 0/1 input. The loop-based pairs '
-         '(distance_wei/bin, betweenness, edge betweenness, efficiency global/local, assortativity, clustering_coef_wu/bu and bd/bu, ignores-weights routines) are BOUNDED only: both routines evaluated on the '
+         'clustering_coef_wd = _bd and transitivity_wd = _bd on 0/1 input, _wd = _wu on symmetric input, transitivity_wu = _bu and _bd = _bu on symmetric 0/1 input. distance_wei = distance_bin (distance matrices) on every 0/1 matrix is a corollary over the two proved contracts '
+         '(contracts/corollaries.py: the calls replaced by the clause lists of the callee contracts, which are verified in the same run; Lean: wd_binary_smt, weighted distance = hop distance when every connection has length 1). The loop-based pairs '
+         '(the edge-count output of distance_wei, betweenness, edge betweenness, efficiency global/local, assortativity, clustering_coef_wu/bu and bd/bu, ignores-weights routines) are BOUNDED only: both routines evaluated on the '
          'same matrix for all 0/1 matrices n<=3/5 and symmetric weighted matrices n<=5. Level claimed is exploration because most pairs named in the property are bounded.',
-         BND_NOTE % 'C10' + LX, 'Lean proofs for the algebraic pairs; pairwise comparison on exhaustive small scopes (bounded) for the loop-based pairs', '5/C10'),
+         BND_NOTE % 'C10' + LX, 'Lean proofs for the algebraic pairs; pyvc corollary over the proved contracts of distance_wei / distance_bin; pairwise comparison on exhaustive small scopes (bounded) for the other loop-based pairs', '5/C10'),
  'C04': ('exploration',
          'Partly deductive: Lean proofs over the extracted real source (all n, every permutation sigma of Fin n) of renumbering equivariance/invariance for 16 algebraic measures (degrees, strengths, densities, '
          'clustering_coef_bd/wd/wu, four transitivities, given-partition modularity_und/_dir) — 17 theorems. All loop-based, LAPACK-based and tie-breaking measures (71 registry entries: distances, '
@@ -124,14 +125,14 @@ CLAIMS = {
          BND_NOTE % 'C14' + LX, 'Lean label-invariance proofs for the modularity values; relabelling on all partitions of small node sets (bounded) for the other consumers', '5/C14'),
 }
 CLAIMS['C16'] = ('exploration', BND + 'The body of get_components builds a Python list of sets with comprehensions: outside the VC generator\'s subset (and its natural invariant is a nested-quantifier list-of-sets '
-                 'statement, DESIGN 5/C16). Only the rejection clause is discharged deductively on every run (prefix contract: execution passes the symmetry check only if A[x,y] = A[y,x] for all cells, every other '
+                 'statement, DESIGN 5/C16). Two parts are discharged deductively on every run: (a) that distance_bin, breadthdist and reachdist agree with each other entry by entry off the diagonal (and the two reachability flags agree and mean "finite distance") is a corollary over their proved contracts (contracts/corollaries.py, networks without self-loops); (b) the rejection clause (prefix contract: execution passes the symmetry check only if A[x,y] = A[y,x] for all cells, every other '
                  'path raises BCTParamError; argument untouched). Bounded: ALL labelled undirected graphs n<=5 (quick) / n<=6 (thorough) incl. non-zero diagonals, weights, forests, late-merge edge orders; own union-find oracle; '
-                 'agreement with distance_bin, breadthdist, reachdist.', BND_NOTE % 'C16', 'bounded exhaustive enumeration with an independent union-find; pyvc prefix contract for the rejection clause', '5/C16')
+                 'agreement of the labels with distance_bin, breadthdist, reachdist.', BND_NOTE % 'C16', 'bounded exhaustive enumeration with an independent union-find; pyvc prefix contract for the rejection clause; pyvc corollary for the agreement of the three hop-distance routines', '5/C16')
 CLAIMS['C03'] = ('other', 'Mixed: distance_bin is proved for ALL graphs (pyvc+z3, 39 obligations): loop invariant of the algebraic-shortest-paths loop (support of nPATH = walks of exactly n connections, via the support '
                  'contract of np.dot on non-negative matrices; found entries hold the shortest-walk length; open entries have no walk shorter than n) and, at exit, by the walk-decomposition lemmas, every open pair has no walk at all: '
                  'the result is the shortest-walk (= shortest-path) length, INF exactly when unreachable, 0 on the diagonal. efficiency_bin (global variant) is proved too: its nested helper distance_inv runs the same loop and returns 1/length (0 where there is no path, 0 on the diagonal; proved on its own, used through its contract) and E = sum of these inverses / (n*n - n). breadth (BFS from one source: the classical queue invariant -- queue = the gray nodes in level order spanning at most two levels, discovered nodes carry the shortest-walk length, black nodes have no undiscovered neighbour, everything up to the head level is discovered; exit by the Lean-proved closure lemma) and breadthdist (modular on breadth; reachability flag = finite distance) are proved for networks without self-loops. reachdist (ensure_binary=True) is proved as well: its recursive helper reachdist2 against its own contract (after accumulating the powers 1..p: R marks the pairs within p connections, D counts the powers at which a pair was reachable), the inversion `powr - D + 1`, the depth limit n+2 and the explicit infinities for nodes without incoming / outgoing connections give the shortest-path length, INF exactly when unreachable, and the flag R = finite distance. distance_wei (Dijkstra with batches of equidistant nodes; non-negative lengths) is proved for its distance matrix: permanent nodes hold wd, the batch is exactly the temporary nodes at the current minimum, every other temporary node holds its tentative value (minimum over connections from permanent nodes, attained at a ghost predecessor) strictly above the batch, G1 has the columns of permanent nodes cleared; the Lean-proved Dijkstra step (the minimum tentative value is the true distance, nothing reachable is closer, all-infinite means unreachable) closes each round; its edge-count output B is not specified. Everything else the property names (distance_wei_floyd, edge-count '
                  'outputs, agreement of the five routines, charpath / local efficiency / rout_efficiency means) is BOUNDED only: independent min-plus closure / BFS oracle on all digraphs n<=3/4, graphs n<=5/6, tie palettes, transforms. Level is '
-                 'other (mixed): four of the five distance routines (distance_bin, distance_wei, breadthdist, reachdist), efficiency_bin and efficiency_wei (both global variant; efficiency_wei: invert through its contract, nested Dijkstra helper distance_inv_wei proved on its own, E = sum of 1/(minimum total length 1/w) over ordered pairs / (n*n-n)) are proved; distance_wei_floyd, the edge-count outputs, charpath and the local variants are bounded.', BND_NOTE % 'C03' + ' Proved part: ' + PROOF_NOTE + ' Walk lemmas (incl. the pigeonhole bound sdist <= n-1) and INF > n are assumed.',
+                 'other (mixed): all five distance routines (distance_bin, distance_wei, distance_wei_floyd for transform=None -- Floyd-Warshall: every finite entry is the length of a walk and no walk whose intermediate nodes are below the pivot counter is shorter, by the Lean-proved decomposition of a walk at the pivot --, breadthdist, reachdist), efficiency_bin and efficiency_wei (both global variant; efficiency_wei: invert through its contract, nested Dijkstra helper distance_inv_wei proved on its own, E = sum of 1/(minimum total length 1/w) over ordered pairs / (n*n-n)) are proved, and so are two corollaries over these contracts (contracts/corollaries.py): distance_wei = distance_bin on 0/1 matrices, and distance_bin = breadthdist = reachdist off the diagonal with agreeing reachability flags; the log / inv transforms of distance_wei_floyd, the edge-count / next-node outputs, charpath and the local variants are bounded.', BND_NOTE % 'C03' + ' Proved part: ' + PROOF_NOTE + ' Walk lemmas (incl. the pigeonhole bound sdist <= n-1) and INF > n are assumed.',
                  'pyvc + z3 + walk lemmas for distance_bin; exhaustive small-scope comparison with an independent min-plus/BFS oracle (bounded) for the rest', '5/C03')
 for _pid in ['C08', 'C16', 'C18', 'C19', 'C20']:
     CLAIMS[_pid] = ('exploration', BND + 'See DESIGN.md section 5/%s for the clauses and why the deductive tier does not (yet) reach them.' % _pid,
